@@ -14,7 +14,13 @@ Decls == {"mod", "mod_typed", "mod_unpack", "mod_redecl", "fn", "block", "list",
 \*  ignores it.  See DESIGN section 13, observations outside the properties.)
 Forms == {"assign", "typed", "add", "sub", "mul", "div", "rem", "unwrap", "modify", "index", "index_add", "field", "field_add",
           "counter", "unpack", "unpack1", "paren_field_index_add", "paren_index_field_mul", "import_mod"}
-Contexts == {"same", "block", "nested_fn", "method", "loop_body"}
+Contexts == {"same", "block", "nested_fn", "nested_fn_block", "method", "loop_body"}
+\* what else bears the name of the binding where the write happens:
+\*   "copy"    - the nested function / method starts with `x = x`, a local seeded from the outer binding.  From there on `modify x`
+\*               still denotes the outer binding (a write: rejected on a const), every other form denotes the local (legal: the
+\*               program is accepted and the const keeps its initializer);
+\*   "sibling" - another method of the same class has a parameter called `x` (the name must not stay behind in the class scope)
+Shadows == {"none", "copy", "sibling"}
 
 (* the constness machine *)
 WriteEnabled(isConst) == ~isConst
@@ -34,9 +40,9 @@ IsWrite(decl, form, ctx) ==
          [] decl = "alias_member" -> form \in {"field", "field_add"}          \* `m = lib` and then `m.kk = 9`: the module through another name
     \* a plain / typed assignment, a loop counter or an unpacking inside a nested function or method declares a new local:
     \* only `modify`, op-assignment and index / field assignment reach the outer binding from there
-    /\ ctx \in {"nested_fn", "method"} => form \in {"modify", "add", "sub", "mul", "div", "rem", "index", "index_add", "field", "field_add",
+    /\ ctx \in {"nested_fn", "nested_fn_block", "method"} => form \in {"modify", "add", "sub", "mul", "div", "rem", "index", "index_add", "field", "field_add",
                                                      "paren_field_index_add", "paren_index_field_mul"}
-    /\ form = "modify" => ctx \in {"nested_fn", "method"}
+    /\ form = "modify" => ctx \in {"nested_fn", "nested_fn_block", "method"}
     \* a loop whose counter re-uses a name declared in an *enclosing* block is left out: whether the counter then is the
     \* outer variable or a fresh one is not pinned down by the language (the implementation makes it a fresh one)
     /\ form = "counter" => ctx = "same"
@@ -44,12 +50,21 @@ IsWrite(decl, form, ctx) ==
     \* like any write, and there is no mutable twin (an unpack statement must be the first of its block: after an expression
     \* the parser reads `[` as an index)
     /\ form \in {"unpack", "unpack1"} => ctx \in {"block", "loop_body"}
-    /\ decl \in {"fn", "block"} => ctx \in {"same", "block", "loop_body", "nested_fn"}
+    /\ decl \in {"fn", "block"} => ctx \in {"same", "block", "loop_body", "nested_fn", "nested_fn_block"}
     /\ decl \in {"class_name", "import_mod", "export_member", "alias_member"} => ctx \in {"same", "block"}
     /\ decl = "const_field" => ctx \in {"same", "block", "nested_fn"}
     /\ decl = "mod_libname" => ctx \in {"same", "block", "loop_body"}
 
-Triples == {t \in [decl : Decls, form : Forms, ctx : Contexts] : IsWrite(t.decl, t.form, t.ctx)}
+(* forms that, after the local copy `x = x`, denote the local and not the outer binding *)
+LocalForms == {"assign", "add", "sub", "mul"}
+Legal(t) == t.shadow = "copy" /\ t.form \in LocalForms
+ShadowOk(t) ==
+    CASE t.shadow = "none" -> IsWrite(t.decl, t.form, t.ctx)
+      [] t.shadow = "copy" -> /\ t.decl \in {"mod", "mod_typed", "fn"} /\ t.ctx \in {"nested_fn", "nested_fn_block", "method"}
+                              /\ (t.decl = "fn" => t.ctx # "method")
+                              /\ t.form \in LocalForms \cup {"modify"}
+      [] t.shadow = "sibling" -> /\ t.decl \in {"mod", "mod_typed"} /\ t.ctx = "method" /\ IsWrite(t.decl, t.form, t.ctx)
+Triples == {t \in [decl : Decls, form : Forms, ctx : Contexts, shadow : Shadows] : ShadowOk(t)}
 
 VARIABLE t
 Init == t \in Triples
@@ -112,13 +127,16 @@ Shown == CASE t.decl = "list" -> <<Print(V("xs"))>>
            [] t.decl = "const_field" -> <<Print(Fld(V("kf"), "q"))>>
            [] OTHER -> <<Print(V("x"))>>
 
-InContext(ws) ==
+Copy == IF t.shadow = "copy" THEN <<Let(Name, V(Name))>> ELSE <<>>
+Sibling == IF t.shadow = "sibling" THEN <<[n |-> "other", ps |-> <<[n |-> Name, ty |-> "int"]>>, rt |-> "int", b |-> <<Ret(V(Name))>>]>> ELSE <<>>
+InContext(ws0) ==
+    LET ws == IF t.ctx = "nested_fn_block" THEN Copy \o <<If(Bin("==", V("one"), I(1)), ws0)>> ELSE Copy \o ws0 IN
     CASE t.ctx = "same" -> ws
       [] t.ctx = "block" -> <<If(Bin("==", V("one"), I(1)), ws)>>
       [] t.ctx = "loop_body" -> <<From(I(0), I(1), FALSE, <<>>, "", ws)>>
-      [] t.ctx = "nested_fn" -> <<Let("w", Fn("w", <<>>, "int", ws \o <<Ret(I(0))>>)), ExprS(Call(V("w"), <<>>))>>
+      [] t.ctx \in {"nested_fn", "nested_fn_block"} -> <<Let("w", Fn("w", <<>>, "int", ws \o <<Ret(I(0))>>)), ExprS(Call(V("w"), <<>>))>>
       [] t.ctx = "method" -> <<[k |-> "class", n |-> "W", export |-> FALSE, fields |-> <<>>, ctor |-> <<>>,
-                                methods |-> <<[n |-> "go", ps |-> <<>>, rt |-> "int", b |-> ws \o <<Ret(I(0))>>]>>],
+                                methods |-> Sibling \o <<[n |-> "go", ps |-> <<>>, rt |-> "int", b |-> ws \o <<Ret(I(0))>>]>>],
                                Let("wo", New("W", <<>>)), ExprS(MCall(V("wo"), "go", <<>>))>>
 
 Core(c) == Declare(c) \o InContext(WriteStmts) \o Shown
@@ -137,6 +155,6 @@ Project(c) == IF t.decl \in {"import_mod", "export_member", "alias_member", "mod
 (* class names, imported modules and their members have no mutable twin *)
 HasTwin == t.decl \notin {"class_name", "import_mod", "export_member", "alias_member", "mod_libname"} /\ t.form \notin {"unpack", "unpack1"}
 
-EmitCase == PrintT("CASE " \o ToJson([t |-> t, const_enabled |-> WriteEnabled(TRUE), twin_enabled |-> WriteEnabled(FALSE),
+EmitCase == PrintT("CASE " \o ToJson([t |-> t, legal |-> Legal(t), const_enabled |-> WriteEnabled(TRUE), twin_enabled |-> WriteEnabled(FALSE),
                                        has_twin |-> HasTwin, prog |-> Project(TRUE), twin |-> Project(FALSE)]))
 =============================================================================
